@@ -430,8 +430,8 @@ def session_oracle(t, inputs_obs, probes, bumps=None):
     Each module's top level runs TO COMPLETION at most once per session -- also when inputs in
     between fail (missing module, module that does not compile or raises, cycle, ...); a module whose
     top level raised is not initialised and may run again; names imported by earlier ACCEPTED inputs
-    stay usable.  Every module has a counter advanced by its own pub
-    function; each accepted input calls it through the qualifier it imported: the values count up through the session."""
+    stay usable.  Modules may have a counter (a pub definition named n401+2i) advanced by their own pub
+    function (n400+2i); each accepted input calls it through the qualifier it imported: the values count up through the session."""
     out = []
     counters = collections.Counter()
     stateful = True
@@ -475,7 +475,8 @@ def session_oracle(t, inputs_obs, probes, bumps=None):
                 exp = []
                 for imp in t["inputs"][k]["imports"]:
                     f = "/".join(imp["path"])
-                    if imp["form"] in ("module", "alias") and f in t["files"] and not t["files"][f].get("fault"):
+                    if imp["form"] in ("module", "alias") and f in t["files"] and not t["files"][f].get("fault") and any(
+                            n[1:].isdigit() and int(n[1:]) >= 400 and int(n[1:]) % 2 == 0 for n, _ in t["files"][f]["defs"]):
                         counters[f] += 1
                         exp.append((f, str(counters[f])))
                 got = bumps[k] if k < len(bumps) else []
